@@ -203,6 +203,7 @@ func checkC06(run *mon.Run, rng *mon.Rand, thorough bool) {
 	run.Extra["memoised_nodes"] = c.nodes
 	run.Sample(map[string]interface{}{"schedule_symbols": "seq<k><sender A|B|r>:class", "example": "1A:inorder 1B:stale 3A:ahead 2r:stranger 2B:inorder"})
 
+	c06FreshStore(run)
 	c06Reentrant(run)
 
 	// ---- long random schedules ----
@@ -213,6 +214,17 @@ func checkC06(run *mon.Run, rng *mon.Rand, thorough bool) {
 	}
 	run.Extra["random_schedules"] = runs
 	run.Extra["random_schedule_length"] = length
+}
+
+// c06FreshStore: a chain on which nothing has ever written the opchild counters (no genesis import of this module):
+// the first expected deposit is number 1, for the query as for the handler.
+func c06FreshStore(run *mon.Run) {
+	raw := sim.NewL2(sim.L2Opts{})
+	q, err := raw.Q.NextL1Sequence(raw.Ctx, &opchildtypes.QueryNextL1SequenceRequest{})
+	run.Evaluations++
+	run.Check("C06.next_sequence_query", err == nil && q.NextL1Sequence == 1, "c06.next_query_fresh_store", []string{"store never written"}, "Query/NextL1Sequence on a fresh store = %v (err %v), the first deposit is number 1", q, err)
+	e := newL2Env(L2EnvOpts{})
+	run.Check("C06.next_sequence_query", e.NextL1Seq() == 1, "c06.next_query_after_genesis", []string{"after InitGenesis, before any deposit"}, "Query/NextL1Sequence = %d before the first deposit", e.NextL1Seq())
 }
 
 func c06Random(run *mon.Run, rng *mon.Rand, length int, sample bool) {
@@ -249,6 +261,7 @@ func c06Random(run *mon.Run, rng *mon.Rand, length int, sample bool) {
 	execs := map[string]bool{e.Executors[0].String(): true, e.Executors[1].String(): true}
 	pool := []sim.Account{e.Executors[0], e.Executors[1], sim.NewAccount("executorC"), sim.NewAccount("executorD"), c.stranger}
 	var log []string
+	c.invariants(e, m, []string{"before any delivery"}) // the query answers before the first deposit, too
 	for i := 0; i < length && !run.TooMany(); i++ {
 		switch x := rng.Intn(100); {
 		case x < 70:
@@ -360,6 +373,16 @@ func c06Random(run *mon.Run, rng *mon.Rand, length int, sample bool) {
 			bal := e.L2.BK.GetBalance(e.L2.Ctx, from.Addr, denom).Amount
 			if bal.IsPositive() && from.String() != to.String() {
 				amt := int64(1 + rng.Intn(int(minI64(bal.Int64(), 500))))
+				if rng.Chance(40) {
+					// a user withdraws to L1: other traffic of the same module, with its own (L2) sequence
+					res := e.L2.Deliver(opchildtypes.NewMsgInitiateTokenWithdrawal(from.String(), "l1recipient", sdk.NewCoin(denom, math.NewInt(amt))))
+					if res.Class == sim.OK {
+						m.credited[from.String()+"/"+denom] -= amt
+					}
+					log = append(log, fmt.Sprintf("withdrawal of %d by %s -> %s", amt, from.Name, res.Class))
+					c.invariants(e, m, tail(log, 30))
+					continue
+				}
 				res := e.L2.Deliver(banktypes.NewMsgSend(from.Addr, to.Addr, sdk.NewCoins(sdk.NewCoin(denom, math.NewInt(amt)))))
 				if res.Class == sim.OK {
 					m.credited[from.String()+"/"+denom] -= amt
